@@ -8,6 +8,7 @@ import (
 	"io"
 	"os"
 	"path/filepath"
+	"runtime"
 	"runtime/debug"
 	"runtime/metrics"
 	"sort"
@@ -45,7 +46,17 @@ type target struct {
 	// entry points of golang.org/x/text retry with a doubled destination after every ErrShortDst and the GSM-7
 	// transformers decode the whole message anew on each retry: ~log2(n) passes, each linear in the input.
 	allocPerOctet uint64
+	allocConst    uint64 // 0 = 24 KiB
 	typ           *pdus.Type // typed IDecode: enables the truncated-mandatory clause
+}
+
+// constOctets: what a call may allocate whatever the input (reader, PDU value, strings of fixed-width fields, the
+// 255-entry destination slice a one-octet count can ask for, x/text's two 4 KiB buffers).
+func (t *target) constOctets() uint64 {
+	if t.allocConst != 0 {
+		return t.allocConst
+	}
+	return 24 << 10
 }
 
 func (t *target) perOctet() uint64 {
@@ -220,7 +231,7 @@ func auxTargets() []target {
 			_, err := codec.NewSMPPCodec().DecodeBlocked(&sliceConn{b})
 			return err
 		}},
-		{name: "DecodeCMPPCContent(all 256 codings)", call: func(b []byte) error {
+		{name: "DecodeCMPPCContent(all 256 codings)", allocPerOctet: 64 * 256, allocConst: 256 << 10, call: func(b []byte) error {
 			n := 256
 			if len(b) > 512 {
 				n = 16
@@ -230,7 +241,7 @@ func auxTargets() []target {
 			}
 			return nil
 		}},
-		{name: "DecodeSMPPCContent(codings -1..20,99,255,300)", call: func(b []byte) error {
+		{name: "DecodeSMPPCContent(codings -1..20,99,255,300)", allocPerOctet: 64 * 32, allocConst: 128 << 10, call: func(b []byte) error {
 			for k := -1; k <= 20; k++ {
 				_, _ = protocol.DecodeSMPPCContent(ctx, string(b), k)
 			}
@@ -287,6 +298,32 @@ func monitor(c *fw.Case, tg target, in []byte) (err error, bad bool) {
 		return nil, true
 	}
 	if !tg.allocExempt {
+		// second, precise level: the cheap counter above carries up to ~1 MiB of accounting noise, which hides an
+		// over-allocation of a few tens of KiB for a 20-octet input (three orders of magnitude, from a 16-bit length
+		// field). When the cheap delta exceeds the tight bound, the call is repeated under runtime.ReadMemStats
+		// (stop-the-world, mcaches flushed: exact) and the minimum of three exact deltas is judged.
+		if tight := tg.constOctets() + tg.perOctet()*uint64(len(in)); a1-a0 > tight {
+			exact := ^uint64(0)
+			var ms runtime.MemStats
+			for rep := 0; rep < 3; rep++ {
+				buf2 := append([]byte(nil), in...)
+				arm(c, len(in))
+				runtime.ReadMemStats(&ms)
+				t0 := ms.TotalAlloc
+				fw.Try(func() { _ = tg.call(buf2) })
+				runtime.ReadMemStats(&ms)
+				disarm(c)
+				if ms.TotalAlloc-t0 < exact {
+					exact = ms.TotalAlloc - t0
+				}
+			}
+			c.Count("exact_alloc_measurements", 1)
+			if exact > tight {
+				st.allocViol[tg.name]++
+				c.Failf("alloc/"+tg.name, "target %s allocated %d octets for a %d-octet input (exact, minimum of three runs; bound %d + %d*len)\ninput=%s", tg.name, exact, len(in), tg.constOctets(), tg.perOctet(), hx(in))
+				return err, true
+			}
+		}
 		d := a1 - a0
 		bound := uint64(2<<20) + tg.perOctet()*uint64(len(in))
 		// runtime/metrics credits small-object spans when an mcache span is swapped, so one delta can carry
